@@ -9,9 +9,11 @@ package logql_transpiler_v2
 //@   requires len(v) >= 1
 //@   modifies elems(v)
 //@   ensures filled: forall i int :: 0 <= i && i < len(v) ==> v[i] == val
+//@   ensures filled-by-position: forall j int :: offsetof(v) <= j && j < offsetof(v) + len(v) ==> arrayof(v)[j] == val
 //@   loop 1:
 //@     invariant 1 <= l
 //@     invariant forall i int :: 0 <= i && i < l && i < len(v) ==> v[i] == val
+//@     invariant forall j int :: offsetof(v) <= j && j < offsetof(v) + l && j < offsetof(v) + len(v) ==> arrayof(v)[j] == val
 //@     modifies elems(v)
 //@     decreases len(v) - l
 
@@ -22,6 +24,12 @@ package logql_transpiler_v2
 // The re-bucketing goroutine of FixPeriodPlanner runs without a recover: a
 // run-time panic here ends the process. Every division, allocation and slice
 // expression must be safe for all entries, given a positive step and range.
+// Re-bucketing: a row (one range bucket of one series) carries its value to
+// every evaluation point from + i*step that its bucket [bucket start, bucket
+// end] reaches (rowFrom..rowTo, the indexes the code computes), clipped to the
+// requested points; no such point is skipped.
+//@ spec fn rowFrom(ts int64, dur int64, from int64, step int64) int64 = ((ts / dur) * dur - from) / step
+//@ spec fn rowTo(ts int64, dur int64, from int64, step int64) int64 = ((ts / dur + 1) * dur - from) / step
 //@ func (*FixPeriodPlanner).Process$2 [C08,C12]
 //@   requires ctx.Step > 0 && m.Duration > 0 && _from <= _to
 //@   requires isnil(values)
@@ -30,6 +38,7 @@ package logql_transpiler_v2
 //@     modifies values, fingerprint, labels, allocated
 //@   loop 2:
 //@     invariant isnil(values) || (len(values) >= 1 && fresh(values))
+//@     invariant row-reaches-its-points: rangeindex >= 0 ==> !isnil(values) && (forall i int :: 0 <= i && i < len(values) && rowFrom(entries[rangeindex].TimestampNS, int64(m.Duration), _from, int64(ctx.Step)) <= i && i <= rowTo(entries[rangeindex].TimestampNS, int64(m.Duration), _from, int64(ctx.Step)) ==> values[i] == entries[rangeindex].Value)
 //@     modifies values, fingerprint, labels, allocated
 
 //@ func (*FixPeriodPlanner).Process$1 [C08]
